@@ -19,5 +19,7 @@ def rt(run):
 
 
 PROPS = {
+    "C10": rt,
     "C11": rt,
+    "C12": rt,
 }
